@@ -46,3 +46,16 @@ CHECKS["C05"] = {
         rapid_job("sequences", "./verifh/c05", "TestWriteSequence", 6000, 40000),
     ],
 }
+
+CHECKS["C06"] = {
+    "rule": ("rapid-generated (message, second message, read mask) over TestAllTypes and 10 trait messages; masks nil/empty/1-4 valid paths biased to populated "
+             "fields incl. duplicates and parent+child, and systematically corrupted masks (unknown, through scalar/map/repeated scalar/repeated message); every read "
+             "entry point (ResponseFilter.Filter/FilterClone, ReadRequest.FilterClone, Value.Get/Pull seed+event, Collection.Get/List/Pull seed/update/remove old+new) "
+             "compared with an independent protoreflect projection; stored messages deep-compared before/after. non-trivial = valid mask with a nested path on a message "
+             "populated inside and outside the mask, or a corrupted mask whose corrupted field is populated; distinct by (type, mask, message)"),
+    "assumptions": ["presence of empty intermediate messages on a mask path is not compared", "for invalid masks only validation, no-panic and non-mutation are asserted"],
+    "jobs": [
+        rapid_job("valid", "./verifh/c06", "TestReadMask|TestValidateAcceptsValid", 6000, 40000),
+        rapid_job("corrupt", "./verifh/c06", "TestCorruptMask", 6000, 40000),
+    ],
+}
